@@ -9,7 +9,8 @@ import random
 import sys
 import threading
 
-from .. import cases, gen
+from .. import cases, gen, layout
+from .. import refmodel as R
 from .. import trace as TR
 
 PROPERTY = "C12"
@@ -89,6 +90,29 @@ def make_pool(rng):
             for fc in rng.sample(vf, min(3, len(vf))):
                 pool.append((f"{lab}~{fc.fault['field']}={fc.fault['new']}", t, fc.d, cc, enc, True))
                 pool.append((f"{lab}~{fc.fault['field']}={fc.fault['new']}w", t, fc.d, cc, enc, False))
+    # sibling types of one enumeration family asked about the same number: one allows it, one does not (a verdict
+    # remembered for the family would make the answer depend on who asked first) - bare values, strict and warn
+    P = layout.pinned()["types"]
+    fam = {}
+    for n, d in P.items():
+        if d["kind"] == "prim" and d.get("bases") and len(d["bases"]) >= 2:
+            fam.setdefault((d["bases"][-2], d["width"]), []).append(n)
+    fams = sorted(k for k, v in fam.items() if len(v) >= 3)
+    for _ in range(2):
+        root, width = rng.choice(fams)
+        members = fam[(root, width)]
+        cands = sorted({a for n in members for a, b in P[n]["valid"] if b - a < 4096 for a in range(a, b)})
+        rng.shuffle(cands)
+        for v in cands[:40]:
+            allow = [n for n in members if R.in_intervals(v, P[n]["valid"])]
+            deny = [n for n in members if not R.in_intervals(v, P[n]["valid"])]
+            if allow and deny and 0 <= v < (1 << (8 * width)):
+                ta, td = rng.choice(allow), rng.choice(deny)
+                b = v.to_bytes(width, "big")
+                pair = [(f"F{ta}={v:#x}", ta, b, None, None, True), (f"F{td}={v:#x}", td, b, None, None, True), (f"F{td}={v:#x}w", td, b, None, None, False)]
+                rng.shuffle(pair)
+                pool.extend(pair)
+                break
     rng.shuffle(pool)
     return pool
 
@@ -384,7 +408,7 @@ def run_shard(shard, rec):
     labels = sorted(LAST)
     picks = rng.sample(labels, min(8 if shard.get("tier") != "thorough" else 40, len(labels)))
     # prefer the value-faulted and stand-alone items: they are the ones whose verdicts could have been remembered
-    picks = sorted(picks, key=lambda l: ("~" not in l and ":S" not in l))
+    picks = sorted(set(picks) | {l for l in labels if ":F" in l}, key=lambda l: ("~" not in l and ":S" not in l and ":F" not in l))
     fresh_process_reference([ITEMS[l] for l in picks], rec, LAST)
     for name, ids in classes.items():
         rec.count("encrypted_layouts_seen")
